@@ -37,8 +37,11 @@ def plan(tier):
     return {"shards": 16}
 
 
-def gen_case(rng):
-    p = progs.gen_program(rng, max_vars=rng.choice([3, 5, 7]), cap=2048, depth=rng.choice([1, 2, 2, 3]))
+def gen_case(rng, wide=False):
+    if wide:
+        p = progs.gen_program(rng, max_vars=3, cap=1 << 62, wide=True, depth=rng.choice([1, 2]))
+    else:
+        p = progs.gen_program(rng, max_vars=rng.choice([3, 5, 7]), cap=2048, depth=rng.choice([1, 2, 2, 3]))
     n = len(p["decls"])
     k = rng.random()
     if k < 0.1:
@@ -148,7 +151,7 @@ def run_case(ctx, st, log, case, choosers):
 
 
 def run(ctx):
-    st = msolve.install(ctx, owner="C02", brute_cap=1 << 13, smt=False, judge_exc=False)
+    st = msolve.install(ctx, owner="C02", brute_cap=1 << 13, smt=(ctx.tier == "thorough"), judge_exc=False)
     log = standin.WireLog()
     n = 500 if ctx.tier == "quick" else 9000
     rng = ctx.rng
@@ -157,6 +160,13 @@ def run(ctx):
         if ctx.mine(k):
             with ctx.guard(120):
                 run_case(ctx, st, log, case, CHOOSERS)
+    if ctx.tier == "thorough":
+        # wide domains (decided through cvc5: two queries per key), z3 route only (the stand-in enumerates domains)
+        for k in range(40):
+            case = gen_case(rng, wide=True)
+            with ctx.guard(300):
+                run_route(ctx, st, case, "z3", None)
+            ctx.count("c02.wide_cases")
     for k in range(n):
         case = gen_case(rng)
         choosers = CHOOSERS if ctx.tier == "thorough" else rng.sample(CHOOSERS, 2) + ["stubborn"]
